@@ -101,6 +101,13 @@ def gen_nice(rng, attrs, earlier=None):
 
 def gen_source(rng):
     r = rng.random()
+    if r < 0.004:
+        # more than 702 tracts in one source: past the last two-letter UID
+        # suffix ('zz')
+        return {"kind": "desc", "config": None, "parse_qq": False,
+                "source": None, "huge": True,
+                "text": "\n".join(f"T{k}N-R1W Secs 1 - 36: NE/4"
+                                  for k in range(1, rng.choice((20, 21)) + 1))}
     if r < 0.03:
         # carriage returns, no comma / quote / line feed anywhere
         return {"kind": "desc", "config": None, "parse_qq": True,
@@ -161,6 +168,17 @@ def gen_plan(rng):
     next_w = 0
     open_w = {}     # writer id -> path (generator-side bookkeeping only)
     closed_w = []
+    hugei = [j for j, sp in enumerate(sources) if sp.get("huge")]
+    if hugei and rng.random() < 0.7:
+        # the point of a huge source: one write() call with UIDs past 'zz'
+        attrs = gen_attrs(rng)[:3]
+        ops.append({"op": "tw_new", "w": 0, "attrs": attrs,
+                    "path": PATHS[0], "mode": rng.choice("wa"), "nice": None,
+                    "plus": None, "uid": rng.choice((0, 27))})
+        ops.append({"op": "tw_write", "w": 0, "src": hugei[0], "plus": "auto",
+                    "as": "list"})
+        open_w[0] = PATHS[0]
+        next_w = 1
     while len(ops) < n_ops:
         k = rng.choice(kinds)
         if k == "csv":
@@ -294,6 +312,8 @@ def cell_ok(spec, cell):
     kind = spec[0]
     if kind == "eq":
         return cell == spec[1]
+    if kind == "prefix":
+        return cell.startswith(spec[1])
     if kind == "none":
         # csv renders None as the empty cell; the text 'None' would read
         # back as a four-letter string value
@@ -587,8 +607,14 @@ class Runner:
                     if plus:
                         row += [["eq", str(x)] for x in plus]
                     if w["uid"] is not None:
-                        row.append(["eq", f"{str(w['uid']).rjust(4, '0')}."
-                                          f"{_alpha(j)}-{_alpha(total)}"])
+                        u_ = str(w['uid']).rjust(4, '0')
+                        if total <= 702:
+                            row.append(["eq", f"{u_}.{_alpha(j)}-{_alpha(total)}"])
+                        elif j <= 702:
+                            # the letters are documented up to 'zz' only
+                            row.append(["prefix", f"{u_}.{_alpha(j)}-"])
+                        else:
+                            row.append(["prefix", f"{u_}."])
                     rows.append(row)
                     n += 1
                 self.note_cells(tracts, w["attrs"])
@@ -724,7 +750,9 @@ def run_workload(plan, srcs, fault=None, interrupt=None, twin=None,
     # an export reads its sources: it must leave them as they were (checked
     # in the fault-free run, full snapshot incl. element identities)
     src_ctx = Ctx()
-    src_before = [enc(s_, src_ctx, full=True) for s_ in srcs] \
+    small = [j_ for j_, sp in enumerate(plan["sources"])
+             if not sp.get("huge")]
+    src_before = [enc(srcs[j_], src_ctx, full=True) for j_ in small] \
         if twin is None else None
     with fs.installed():
         for k, op in enumerate(ops):
@@ -758,8 +786,8 @@ def run_workload(plan, srcs, fault=None, interrupt=None, twin=None,
             newly_fired = fs.fired is not None and fired_before is None
             if twin is None:
                 # ---- fault-free oracle
-                src_now = [enc(s_, src_ctx, full=True) for s_ in srcs]
-                for j_, (b_, a_) in enumerate(zip(src_before, src_now)):
+                src_now = [enc(srcs[j_], src_ctx, full=True) for j_ in small]
+                for j_, (b_, a_) in zip(small, zip(src_before, src_now)):
                     pth, _ = compare(b_, a_, exact=True)
                     if pth is not None:
                         problems.append({
@@ -1246,9 +1274,17 @@ def _driver(plan, tier):
     bump("fault_points", len(points))
     bump("raw_io_calls", len(twin["trace"]))
     exhaustive = True
-    if len(points) > MAX_FAULT_RUNS:
-        stride = len(points) / MAX_FAULT_RUNS
-        points = [points[int(j * stride)] for j in range(MAX_FAULT_RUNS)]
+    max_runs = MAX_FAULT_RUNS
+    huge = any(s_.get("huge") for s_ in plan["sources"])
+    if huge:
+        # every re-run writes hundreds of rows: the fault-free oracle and a
+        # handful of fault points only, no interrupts, no second faults
+        max_runs = 6
+        plan = dict(plan, interrupts=[], double=[], int_sweep=None)
+        bump("workloads_with_a_huge_source")
+    if len(points) > max_runs:
+        stride = len(points) / max_runs
+        points = [points[int(j * stride)] for j in range(max_runs)]
         exhaustive = False
         bump("workloads_with_sampled_fault_points")
     fault_free_clean = not failures
